@@ -1033,9 +1033,15 @@ wavlike_subchunk_parse (SF_PRIVATE *psf, int chunk, uint32_t chunk_length)
 			case ITRK_MARKER :
 					bytesread += psf_binheader_readf (psf, "4", &chunk_size) ;
 					chunk_size += (chunk_size & 1) ;
-					if (chunk_size >= SIGNED_SIZEOF (buffer) || bytesread + chunk_size > chunk_length)
+					if (bytesread + chunk_size > chunk_length)
 					{	psf_log_printf (psf, "  *** %M : %u (too big)\n", chunk, chunk_size) ;
 						goto cleanup_subchunk_parse ;
+						} ;
+					if (chunk_size >= SIGNED_SIZEOF (buffer))
+					{	/* Too long for the scratch buffer : leave this one out, the following sub-chunks are still good. */
+						psf_log_printf (psf, "  *** %M : %u (too big, skipping)\n", chunk, chunk_size) ;
+						bytesread += psf_binheader_readf (psf, "j", (size_t) chunk_size) ;
+						continue ;
 						} ;
 
 					bytesread += psf_binheader_readf (psf, "b", buffer, chunk_size) ;
@@ -1049,9 +1055,15 @@ wavlike_subchunk_parse (SF_PRIVATE *psf, int chunk, uint32_t chunk_length)
 						bytesread += psf_binheader_readf (psf, "44", &chunk_size, &mark_id) ;
 						chunk_size -= 4 ;
 						chunk_size += (chunk_size & 1) ;
-						if (chunk_size < 1 || chunk_size >= SIGNED_SIZEOF (buffer) || bytesread + chunk_size > chunk_length)
+						if (chunk_size < 1 || bytesread + chunk_size > chunk_length)
 						{	psf_log_printf (psf, "  *** %M : %u (too big)\n", chunk, chunk_size) ;
 							goto cleanup_subchunk_parse ;
+							} ;
+						if (chunk_size >= SIGNED_SIZEOF (buffer))
+						{	/* Too long for the scratch buffer : leave this one out, the following sub-chunks are still good. */
+							psf_log_printf (psf, "  *** %M : %u (too big, skipping)\n", chunk, chunk_size) ;
+							bytesread += psf_binheader_readf (psf, "j", (size_t) chunk_size) ;
+							continue ;
 							} ;
 
 						bytesread += psf_binheader_readf (psf, "b", buffer, chunk_size) ;
@@ -1080,9 +1092,15 @@ wavlike_subchunk_parse (SF_PRIVATE *psf, int chunk, uint32_t chunk_length)
 			case note_MARKER :
 					bytesread += psf_binheader_readf (psf, "4", &chunk_size) ;
 					chunk_size += (chunk_size & 1) ;
-					if (chunk_size >= SIGNED_SIZEOF (buffer) || bytesread + chunk_size > chunk_length)
+					if (bytesread + chunk_size > chunk_length)
 					{	psf_log_printf (psf, "  *** %M : %u (too big)\n", chunk, chunk_size) ;
 						goto cleanup_subchunk_parse ;
+						} ;
+					if (chunk_size >= SIGNED_SIZEOF (buffer))
+					{	/* Too long for the scratch buffer : leave this one out, the following sub-chunks are still good. */
+						psf_log_printf (psf, "  *** %M : %u (too big, skipping)\n", chunk, chunk_size) ;
+						bytesread += psf_binheader_readf (psf, "j", (size_t) chunk_size) ;
+						continue ;
 						} ;
 
 					psf_log_printf (psf, "    %M : %u\n", chunk, chunk_size) ;
